@@ -196,7 +196,11 @@ func (m *Model) extractPratt() *prattModel {
 		pm.problems = append(pm.problems, "parser.New not found")
 		return pm
 	}
-	for _, b := range newFn.Blocks {
+	var newBlocks []*ssa.BasicBlock
+	for _, h := range m.helpersOf(newFn) { // the constructor and the private helpers its body is split into
+		newBlocks = append(newBlocks, h.Blocks...)
+	}
+	for _, b := range newBlocks {
 		for _, in := range b.Instrs {
 			var key, val ssa.Value
 			var mapField string
@@ -212,6 +216,9 @@ func (m *Model) extractPratt() *prattModel {
 				}
 				key, val = x.Call.Args[1], x.Call.Args[2]
 			case *ssa.MapUpdate:
+				if registrarField(x.Parent()) != "" {
+					continue // the body of a registrar helper: its call sites are the registrations
+				}
 				if r, p, ok := pathOf(x.Map); ok && r != nil {
 					mapField = strings.TrimPrefix(p, ".")
 				}
